@@ -116,9 +116,16 @@ func (e *verifC10Env) step() {
 	case 0: // WAL writer
 		if ok, _ := db.TryLocks(ctx, 1, []LockType{LockTypeWrite}); ok {
 			off := e.m.capOff
-			c1, c2, data := e.m.verifWriteFrame(ctx, db, off, 1, e.m.pageN, e.m.c1, e.m.c2)
-			_, _, _ = c1, c2, data
-			e.m.txSize = e.m.pageN
+			if rt.Choose("env.wal.grows", 2) == 1 {
+				// the transaction appends a page: a frame for the new page, then page 1 with the new size
+				n := e.m.pageN + 1
+				e.m.txSize = n
+				c1, c2, _ := e.m.verifWriteFrame(ctx, db, off, n, 0, e.m.c1, e.m.c2)
+				e.m.verifWriteFrame(ctx, db, off+verifFrameSize, 1, n, c1, c2)
+			} else {
+				e.m.txSize = e.m.pageN
+				e.m.verifWriteFrame(ctx, db, off, 1, e.m.pageN, e.m.c1, e.m.c2)
+			}
 			if e.m.verifC03Release(ctx, e.w, "c10.env.wal") {
 				e.record()
 			}
